@@ -367,6 +367,39 @@ def settings_oracle(ctx, o, first_only=False):
             except exc.PasswordTruncateError:
                 raised = True
             chk(name + ":truncate_error", raised == want_raise, {"op": "truncate_error", "hasher": name, "value": repr(te)}, raised, want_raise)
+    # ---- the truncation policy holds for EVERY identifier the hasher can write (bcrypt's legacy $2$ takes a code path of its own) and for
+    #      text whose UTF-8 form, not its character count, exceeds the limit; exactly the limit is accepted
+    from passlib.hash import bcrypt as _bc
+
+    for ident in ("2", "2a", "2b", "2y"):
+        for te in (True, False):
+            sub = _bc.using(ident=ident, truncate_error=te, rounds=4)
+            for secret, over in (("a" * 72, False), ("a" * 73, True), (b"\xff" * 73, True), ("\u00e9" * 36, False), ("\u00e9" * 36 + "a", True), ("a" * 200, True)):
+                inp = {"op": "truncate-ident", "ident": ident, "truncate_error": te, "secret_len": len(secret if isinstance(secret, bytes) else secret.encode())}
+                try:
+                    hs = sub.hash(secret)
+                    raised = False
+                except exc.PasswordTruncateError:
+                    raised = True
+                except Exception as e:  # noqa: BLE001
+                    chk("bcrypt:truncate_error-every-ident", False, inp, errname(e) + ": " + str(e)[:60], "hash or PasswordTruncateError")
+                    continue
+                chk("bcrypt:truncate_error-every-ident", raised == (te and over), inp, raised, te and over)
+                if not raised and te:
+                    ext = secret + (b"x" if isinstance(secret, bytes) else "x")
+                    chk("bcrypt:truncate_error-no-extension-under-limit", len(secret if isinstance(secret, bytes) else secret.encode()) == 72 or sub.verify(ext, hs) is False, inp, "an extension verifies", False)
+    # ---- scrypt / argon2-style exact settings: a hash whose block size or parallelism differs from the configured one needs an update,
+    #      whichever way it differs
+    for key in ("parallelism", "block_size"):
+        for conf in (1, 2, 3):
+            for have in (1, 2, 3, 4):
+                for ident in ("$scrypt$", "$7$"):
+                    other = {"block_size": 1, "parallelism": 1}
+                    other.pop(key)
+                    pol = scrypt.using(**{key: conf, "rounds": 1, "ident": ident}, **other)
+                    hs = scrypt.using(**{key: have, "rounds": 1, "ident": ident}, **other).hash("pw")
+                    inp = {"op": "scrypt-needs-update", "setting": key, "configured": conf, "hash_has": have, "ident": ident}
+                    chk("scrypt:needs_update-" + key, pol.needs_update(hs) is (conf != have), inp, pol.needs_update(hs), conf != have)
     # ---- "not set" spellings leave an inherited truncation policy alone (chains), real values override it
     for name in ("des_crypt", "bcrypt", "crypt16", "lmhash", "django_des_crypt", "ldap_des_crypt", "ldap_bcrypt"):
         h = registry.get_crypt_handler(name)
